@@ -67,6 +67,7 @@ def prims():
 def gen_program(c, max_ops):
     n_in = c.int(1, 3)
     n_ops = c.int(1, max_ops)
+    form = c.choice(["array", "tuple"])
     stmts = []
     nvals = n_in
 
@@ -85,7 +86,20 @@ def gen_program(c, max_ops):
         return [name, [src() for _ in range(ar)]]
 
     for _ in range(n_ops):
-        k = c.int(0, 10)
+        k = c.int(0, 12)
+        if k == 11:
+            if form != "array":
+                continue
+            # one indexing operation that consumes input elements several times (repeated positions in an index list)
+            idxs = [c.int(0, n_in - 1) for _ in range(c.int(2, 4))]
+            stmts.append(["gather", idxs, [c.choice([1.0, -0.5, 2.0, 0.25]) for _ in idxs], c.choice(["tuple_list", "list", "two_lists"])])
+            nvals += 1
+            continue
+        if k == 12:
+            # a checkpointed sub-program whose keyword arguments steer a loop count and a branch
+            stmts.append(["ckpt", c.choice(["add", "mul", "div", "sub"]), [src(), src()], c.int(1, 3), c.bool()])
+            nvals += 1
+            continue
         if k == 10:
             # an inner differentiation whose function closes over outer values; on one branch its result depends on the outer
             # values only (so the inner derivative is exactly zero and must not pick up the outer dependence)
@@ -109,7 +123,7 @@ def gen_program(c, max_ops):
         # bias towards late values so that most of the program is live
         idx = nvals - 1 - c.int(0, min(nvals - 1, 3)) if c.chance(3, 4) else c.int(0, nvals - 1)
         outs.append([idx, c.choice([1.0, -0.7, 2.0, 0.5])])
-    return {"n_in": n_in, "stmts": stmts, "out": outs, "consts": [0.8, 1.25], "form": c.choice(["array", "tuple"])}
+    return {"n_in": n_in, "stmts": stmts, "out": outs, "consts": [0.8, 1.25], "form": form}
 
 
 def interpret(prog, inputs, be):
@@ -140,6 +154,12 @@ def interpret(prog, inputs, be):
             trace.append(("if", st[1], bool(taken)))
             name, srcs = st[3] if taken else st[4]
             vals.append(call(name, srcs))
+        elif kind == "gather":
+            trace.append(("gather", tuple(st[1]), st[3]))
+            vals.append(be.gather(st[1], st[2], st[3]))
+        elif kind == "ckpt":
+            trace.append(("ckpt", st[1], tuple(st[2]), st[3], st[4]))
+            vals.append(be.ckpt(st[1], arg(st[2][0]), arg(st[2][1]), st[3], st[4]))
         elif kind == "closure":
             _, mode, a_s, p_s, b_s, thr = st
             r, taken = be.closure(mode, arg(a_s), arg(p_s), arg(b_s), thr)
@@ -204,6 +224,33 @@ class AGBackend:
     def gt(self, v, thr):
         return bool(v > thr)
 
+    def gather(self, idxs, coefs, style):
+        anp = self.np
+        x = self.x
+        if style == "tuple_list":
+            sel = x[None, :][:, idxs]
+        elif style == "list":
+            sel = x[idxs]
+        else:
+            sel = anp.reshape(x, (1, -1))[[0] * len(idxs), idxs]
+        return anp.sum(anp.ravel(sel) * onp.array(coefs))
+
+    def ckpt(self, name, a, b, steps, residual):
+        import autograd
+
+        def fn(u, w, steps=1, residual=False):
+            acc = u
+            for _ in range(steps):
+                acc = self.apply(name, [acc, w], None)
+            return acc + u if residual else acc
+
+        kw = {}
+        if steps != 1:
+            kw["steps"] = steps
+        if residual:
+            kw["residual"] = True
+        return autograd.checkpoint(fn)(a, b, **kw)
+
     def closure(self, mode, a, p, b, thr):
         import warnings
 
@@ -249,6 +296,16 @@ class RefBackend:
     def gt(self, v, thr):
         return T.val(v) > thr
 
+    def gather(self, idxs, coefs, style):
+        value = sum(cf * T.val(self.inputs[i]) for i, cf in zip(idxs, coefs))
+        return self.tape.apply(("gather", None), value, [(self.inputs[i], cf) for i, cf in zip(idxs, coefs)])
+
+    def ckpt(self, name, a, b, steps, residual):
+        acc = a
+        for _ in range(steps):
+            acc = self.apply(name, [acc, b], None)
+        return self.add(acc, a) if residual else acc
+
     def closure(self, mode, a, p, b, thr):
         av, pv = T.val(a), T.val(p)
         if pv > thr:  # d/dy [a y^2 + b y] at y = p  =  2 a p + b
@@ -286,6 +343,7 @@ def body(max_ops, c):
     # ---- reference ---------------------------------------------------------------------------
     rb = RefBackend()
     rin = [rb.tape.new_input(v) for v in xs]
+    rb.inputs = rin
     try:
         rout, rtrace = interpret(prog, rin, rb)
     except OverflowError:
@@ -314,7 +372,7 @@ def body(max_ops, c):
     multi = any(len({p for p, _ in ps if p is not None}) < len([p for p, _ in ps if p is not None]) for _, ps, _ in rb.tape.entries)
     fan = any(n >= 2 and live[i] for i, n in uses.items())
     dead = any(dep[i] and not live[i] for i in range(len(live)))
-    ctrl = any(t[0] in ("if", "loop", "rec", "closure") for t in rtrace)
+    ctrl = any(t[0] in ("if", "loop", "rec", "closure", "gather", "ckpt") for t in rtrace)
     labels = [l for l, on in (("multi_edge", multi), ("fan_out", fan), ("dead_op", dead), ("control_flow", ctrl)) if on]
     labels.append("form=" + prog["form"])
     nontrivial = bool(multi or fan or dead or ctrl)
@@ -328,6 +386,7 @@ def body(max_ops, c):
 
     if prog["form"] == "array":
         def f(x):
+            ab.x = x
             return interpret(prog, [x[i] for i in range(n_in)], ab)[0]
         x0 = onp.array(xs)
         mk_vjp = lambda: autograd.make_vjp(f)(x0)
@@ -399,11 +458,14 @@ def body(max_ops, c):
         return fail("history_dependence", "second call of the same VJP function logged different rule applications",
                     bucket + "history_dependence", sample=sample)
     # ---- forward mode ----------------------------------------------------------------------------
+    J = None
     try:
         J = [float(mk_jvp(b)[1]) for b in basis]
     except Exception as e:
-        return unexpected(e, "forward")
-    if not all(gclose(a, b) for a, b in zip(J, gref)):
+        if not _is_missing_rule(e):
+            return unexpected(e, "forward")
+        labels.append("fwd_missing_rule")  # e.g. checkpoint has no JVP: loud, and the reverse-mode verdicts above stand
+    if J is not None and not all(gclose(a, b) for a, b in zip(J, gref)):
         return fail("wrong_value", f"forward-mode Jacobian {J} but reference {gref}", bucket + "fwd_wrong_value", sample=sample)
     return ok(nontrivial=nontrivial, key=key, labels=labels, sample=sample)
 
